@@ -200,7 +200,11 @@ struct HArray : public HashTable<Key_T, HAItem_T<Key_T, Value_T>> {
 
     void Insert(Key_T &&key, Value_T &&value) {
         if (Size() == Capacity()) {
+            // value can be a member of this table: take it out before the storage moves.
+            Value_T tmp{Memory::Move(value)};
             expand();
+            Insert(Memory::Move(key), Memory::Move(tmp));
+            return;
         }
 
         const SizeT hash = StringUtils::Hash(key.First(), key.Length());
